@@ -633,7 +633,7 @@ func init() {
 		},
 		Run: vRunC07,
 		Meta: vMeta{Level: "fault_enumeration",
-			Rule:        "3 of 4 cases: asyncbufio.Writer (queue depth 1..64 and the real 1000, flush interval 200us..1h) over a gated in-memory writer that blocks on command; producer issues 30-3000 writes of 1..9000-byte payloads with unique ids, random flushes (also while the gate is closed, in 1 of 8 cases for 1.1-5.6 s) and a final close. 1 of 4 cases: a real LJH2.2 / LJH3 / OFF writer whose file is a 4 KiB named pipe that the harness does not drain until the scripted moment (never stalled / from the header / after some records; released at the first rejection / after several / partly full / only after Flush or Close has been called with the queue full), with record sizes 24..1016 bytes so the first rejection lands on different part indices; fault = the stall point; oracle = bytes at the sink are exactly the accepted payloads/records in order, whole records only, and complete when Flush/Close return",
+			Rule:        "3 of 4 cases: asyncbufio.Writer (queue depth 1..64 and the real 1000, flush interval 200us..1h) over a gated in-memory writer that blocks on command; producer issues 30-3000 writes of 1..9000-byte payloads with unique ids, random flushes (also while the gate is closed, in 1 of 8 cases for 1.1-5.6 s) and a final close. 1 of 4 cases: a real LJH2.2 / LJH3 / OFF writer whose file is a 4 KiB named pipe that the harness does not drain until the scripted moment (never stalled / from the header / after some records; released at the first rejection / after several / partly full / only after Flush or Close has been called with the queue full), with record sizes 24..1016 bytes so the first rejection lands on different part indices; fault = the stall point; oracle = bytes at the sink are exactly the accepted payloads/records in order, whole records only, and complete when Flush/Close return; LJH3 records of mixed lengths (3000-40000 samples among short ones); script slow-drain: after the first rejection the disk returns slower than a paced producer for 4000-6000 records",
 			Assumptions: []string{"Linux named-pipe semantics stand in for a stalling disk", "callers do not modify a buffer after handing it to Write (the record writers do not)"},
 			Guards: map[string]map[string]int{
 				"quick":    {"l1_cases_with_rejection": 40, "l1_flush_while_stalled": 20, "l1_flush_after_stalled_flush": 100, "l1_flushes": 500, "l2_cases_with_rejection": 30, "l2_ljh22": 10, "l2_ljh3": 10, "l2_off": 10, "l2_rejected": 500, "l1_flush_stalled_for_seconds": 10, "l2_during-flush_with_full_queue": 3, "l2_during-close_with_full_queue": 3},
